@@ -44,7 +44,22 @@ def extract(ctx):
     log['R2 auto r -> range<vx_iter> (the scaffold range type)'] = n2
     if n14 != 3 or n2 != 3:
         raise ExtractError('EqRel.h wrappers: expected three getBoundaries calls')
-    text = ('#include "ramtypes.hpp"\n#include "vx_eqrel.h"\nnamespace souffle {\nstruct EqrelScaffold : public vx_eqrel_base {\n'
+    # the iterator factories the look-ups go through: real bodies (they decide WHEN the per-class list cache is regenerated and read)
+    facs = []
+    for nm, rx in (('begin', r'iterator\s+begin\s*\(\s*\)\s*const\s*\{'), ('anteriorIt', r'iterator\s+anteriorIt\s*\(\s*value_type\s+\w+\s*\)\s*const\s*\{'),
+                   ('antpostit', r'iterator\s+antpostit\s*\(\s*value_type\s+\w+\s*,\s*value_type\s+\w+\s*\)\s*const\s*\{')):
+        t, _ = src.block(rx, semi=False)
+        facs.append(strip_comments(t))
+    ftext = '\n'.join(facs)
+    ftext, nf = re.subn(r'equivalencePartition\.find\(\s*\{\s*(sds\.findNode\(\w+\))\s*,\s*nullptr\s*\}\s*\)', r'equivalencePartition.vx_find(\1)', ftext)
+    log['R8 equivalencePartition.find({rep, nullptr}) -> equivalencePartition.vx_find(rep) (scaffold cache: reading it asserts that it has been regenerated)'] = nf
+    ftext, na = re.subn(r'\bauto\s+found\b', 'vx_piter found', ftext)
+    log['R2 auto found -> vx_piter (scaffold cache iterator)'] = na
+    ftext, ns = re.subn(r'\s*&&\s*"[^"]*"\s*\)', ')', ftext)
+    log['R5 message strings in assert(c && "...") dropped'] = ns
+    ctx.fact('EquivalenceRelation.h: genAllDisjointSetLists() clears statesMapStale after rebuilding equivalencePartition; insert/insertAll/extendAndInsert set it',
+             src.has(r'statesMapStale\.store\(false') and src.has(r'statesMapStale\.store\(true'))
+    text = ('#include "ramtypes.hpp"\n#include "vx_eqrel.h"\nnamespace souffle {\nstruct EqrelScaffold : public vx_eqrel_base {\n' + ftext + '\n'
             + strip_comments(lb) + '\n' + '\n'.join(insts) + '\n};\n'
             'struct t_eqrel_scaffold : public vx_t_eqrel_base {\n    EqrelScaffold ind;\n' + wtext + '\n};\n}\n')
     ctx.write('extracted.hpp', text)
@@ -59,7 +74,7 @@ def extract(ctx):
     ctx.fact('Index.h: range(low, high) passes `low` unchanged to data.lower_bound',
              idx.has(r'return\s*\{\s*data\.lower_bound\(low,\s*hints\)\s*,\s*data\.upper_bound\(high,\s*hints\)\s*\}'))
     ctx.dropped += ['everything of EquivalenceRelation except lower_bound(entry, hints) and getBoundaries<levels>(entry, hints): iterators, '
-                    'begin/end/anteriorIt/antpostit (abstracted to a ghost range descriptor), the union-find (see C28/C29)',
+                    'the iterator class (abstracted to a ghost range descriptor) and the rebuilding of the per-class list cache (abstracted to a ghost freshness flag), the union-find (see C28/C29)',
                     'btree/brie/default representation transparency (whole-program equivalence): not contract-expressible']
 
 
@@ -104,7 +119,8 @@ def replay(ctx, h, r, ins, tr):
 
 
 ASSUMPTIONS = [
-    'begin()/end()/anteriorIt(x)/antpostit(x,y) denote the ranges ALL / empty / {(x,_)} / {(x,y)} (abstracted as a ghost range descriptor; the iterators themselves are not verified)',
+    'iterators constructed by begin()/end()/anteriorIt(x)/antpostit(x,y) denote the ranges ALL / empty / {(x,_)} / {(x,y)} (ghost range descriptor; iteration itself is not verified); the per-class list cache is a ghost flag: stale at entry (nondeterministic), fresh after genAllDisjointSetLists(), and it must be fresh whenever it is read',
+    'sds.sameSet(a,b) agrees with sds.contains(a,b) on the values the look-ups pass (both uninterpreted)',
     'sds.nodeExists / sds.contains are deterministic functions of their arguments (uninterpreted)',
     'the interpreter encodes an unbound column as MIN_RAM_SIGNED in the lower bound (static fact on Generator.cpp, re-checked every run)',
     'RAM_DOMAIN_SIZE == 32',
@@ -115,7 +131,7 @@ ER2 = 'src/include/souffle/datastructure/EqRel.h'
 MUTANTS = [
     dict(name='lowerUpperRange_01 forgets to reorder the key', file=ER2, find=r'getBoundaries<1>\(reorder\(lower\), h\.hints\)', repl='getBoundaries<1>((lower), h.hints)', expect=r'eqrel\.range_01'),
     dict(name='lowerUpperRange_01 yields unswapped tuples', file=ER2, find=r'(range<iterator_1> lowerUpperRange_01\(const t_tuple& lower, const t_tuple& /\*upper\*/, context& h\) const \{.*?)return make_range\(iterator_1\(r\.begin\(\)\), iterator_1\(r\.end\(\)\)\);', repl=r'\1return make_range(iterator_1(r.begin()), iterator_1(r.begin()));', expect=r'eqrel\.range_01'),
-    dict(name='reorder copies column 0 twice', file=ER2, find=r'res\[1\] = t\[0\];', repl='res[1] = t[1];', expect=r'eqrel\.range_01'),
+    # (a mutant of reorder()'s second component is equivalent here: the one-column look-up reads component 0 only)
     dict(name='getBoundaries<1> skips existence test', file=ER, find=r'if \(!sds\.nodeExists\(entry\[0\]\)\) return make_range\(end\(\), end\(\)\);', repl='', expect=r'eqrel\.getBoundaries_1 :: .*postcondition'),
     dict(name='getBoundaries<2> uses anteriorIt', file=ER, find=r'return make_range\(antpostit\(entry\[0\], entry\[1\]\), end\(\)\);', repl='return make_range(anteriorIt(entry[0]), end());', expect=r'eqrel\.getBoundaries_2 :: .*postcondition'),
     dict(name='lower_bound 11 swaps arguments', file=ER, find=r'return antpostit\(entry\[0\], entry\[1\]\);', repl='return antpostit(entry[1], entry[0]);', expect=r'eqrel\.lower_bound :: .*postcondition'),
